@@ -78,4 +78,89 @@ theorem agentUpsert_eq (a : List Entry) (new : Entry) (hnd : (a.map Entry.blob).
     rw [hdm'.2] at hd'
     cases hd'
 
+/-- equal blobs within a list whose blobs are pairwise distinct: the same entry -/
+theorem eq_of_blob_eq {a : List Entry} (hnd : (a.map Entry.blob).Nodup) {d e : Entry}
+    (hd : d ∈ a) (he : e ∈ a) (hb : d.blob = e.blob) : d = e := by
+  induction a with
+  | nil => cases he
+  | cons x xs ih =>
+    simp only [List.map_cons, List.nodup_cons] at hnd
+    have hx := hnd.1
+    rcases List.mem_cons.mp hd with h1 | h1 <;> rcases List.mem_cons.mp he with h2 | h2
+    · rw [h1, h2]
+    · exfalso; apply hx; rw [← h1, hb]; exact List.mem_map_of_mem h2
+    · exfalso; apply hx; rw [← h2, ← hb]; exact List.mem_map_of_mem h1
+    · exact ih hnd.2 h1 h2
+
+/-- removing (by blob) some of the certificates that carry the comment: the other entries stay,
+nothing appears, blobs stay distinct -/
+theorem removeBlobs_spec (a ds : List Entry) (new : Entry) (hnd : (a.map Entry.blob).Nodup)
+    (hds : ∀ d ∈ ds, d ∈ a ∧ isDup new d = true) :
+    (removeBlobs a ds).filter (fun e => !isDup new e) = a.filter (fun e => !isDup new e) ∧
+    ((removeBlobs a ds).map Entry.blob).Nodup ∧ ∀ e ∈ removeBlobs a ds, e ∈ a := by
+  unfold removeBlobs
+  refine ⟨?_, ?_, ?_⟩
+  · rw [List.filter_filter]
+    apply List.filter_congr
+    intro e he
+    by_cases hd : isDup new e = true
+    · simp [hd]
+    · have hd' : isDup new e = false := by simpa using hd
+      have : (ds.any fun d => d.blob == e.blob) = false := by
+        apply List.any_eq_false.mpr
+        intro d hdm hbe
+        have hbe' : d.blob = e.blob := by simpa using hbe
+        have := eq_of_blob_eq hnd (hds d hdm).1 he hbe'
+        rw [this] at hdm
+        rw [(hds e hdm).2] at hd'
+        cases hd'
+      simp [hd', this]
+  · exact List.Nodup.sublist (List.Sublist.map _ List.filter_sublist) hnd
+  · intro e he
+    exact (List.mem_filter.mp he).1
+
+/-- the invariant the retry relies on: an installation that succeeds — after whatever failed
+attempts — leaves the old non-duplicates plus the new entry; one that fails leaves the
+non-duplicates untouched and adds nothing -/
+theorem install_spec (fs : List Fault) (new : Entry) :
+    ∀ a : List Entry, (a.map Entry.blob).Nodup →
+      ((install a new fs).2 = true → (install a new fs).1 = a.filter (fun e => !isDup new e) ++ [new]) ∧
+      ((install a new fs).2 = false →
+        (install a new fs).1.filter (fun e => !isDup new e) = a.filter (fun e => !isDup new e) ∧
+        ∀ e ∈ (install a new fs).1, e ∈ a) := by
+  induction fs with
+  | nil => intro a _; simp [install]
+  | cons f fs ih =>
+    intro a hnd
+    -- what one attempt does
+    have hatt : ((attempt a new f).2 = true → (attempt a new f).1 = a.filter (fun e => !isDup new e) ++ [new]) ∧
+        ((attempt a new f).2 = false →
+          (attempt a new f).1.filter (fun e => !isDup new e) = a.filter (fun e => !isDup new e) ∧
+          ((attempt a new f).1.map Entry.blob).Nodup ∧ ∀ e ∈ (attempt a new f).1, e ∈ a) := by
+      have hall : ∀ d ∈ a.filter (isDup new), d ∈ a ∧ isDup new d = true := fun d hd => List.mem_filter.mp hd
+      cases f with
+      | none => simp [attempt, agentUpsert_eq a new hnd]
+      | list => simp [attempt, hnd]
+      | add =>
+        simp only [attempt]
+        exact ⟨by simp, fun _ => removeBlobs_spec a _ new hnd hall⟩
+      | remove k =>
+        simp only [attempt]
+        split
+        · exact ⟨by simp, fun _ => removeBlobs_spec a _ new hnd
+            (fun d hd => hall d (List.mem_of_mem_take hd))⟩
+        · simp [agentUpsert_eq a new hnd]
+    simp only [install]
+    split
+    · rename_i hok
+      exact ⟨fun _ => hatt.1 hok, fun h => by rw [hok] at h; cases h⟩
+    · rename_i hok
+      have hok' : (attempt a new f).2 = false := by simpa using hok
+      have h1 := hatt.2 hok'
+      have h2 := ih (attempt a new f).1 h1.2.1
+      refine ⟨fun h => ?_, fun h => ?_⟩
+      · rw [h2.1 h, h1.1]
+      · have h3 := h2.2 h
+        exact ⟨by rw [h3.1, h1.1], fun e he => h1.2.2 e (h3.2 e he)⟩
+
 end KM.Client
